@@ -3,5 +3,5 @@ CONSTANTS
   AsImplemented = FALSE
   SourceSet = "patterns"
   PermAllUpTo = 3
-INVARIANTS TraceDeterministic ErrorOnFault NeverCrash NoDummyLeft ScaffoldBeforeUse CanonOrder
+INVARIANTS TraceDeterministic ErrorOnFault NeverCrash NoDummyLeft ScaffoldBeforeUse CanonOrder TextualIsPositional
 CHECK_DEADLOCK TRUE
